@@ -79,6 +79,21 @@ of the package, every class through its MRO, static / class methods), never list
      issued by Python under the same configuration (disagreement = harness error);
      (3) under every configuration the replacement gets the same arguments once and its result / exception comes back (when
      errors were requested the call may stop at the warning: the replacement is then reached at most once).
+ DPB the old and the new keyword in ONE call: every decorated callable (plus the toy one) x every renamed keyword x {old written
+     first, new written first} x positional count x pools.  Reference: the old keyword IS the new one, so this is a keyword
+     given twice, which Python refuses before the function runs (control: the two values under the new name raise TypeError);
+     demanded: refused, the function is not reached with one of the two explicitly given values silently thrown away.
+ PENV THE ENVIRONMENT THE INTERPRETER IS STARTED IN (every other layer runs in the one environment of the check).  Fresh
+     interpreters, one per environment: {cleaned base; every variable the package itself looks at - scan of the package sources
+     for environ / getenv accesses, plus every os.environ look-up OBSERVED from a package frame during import, discovery and the
+     probes (a name found only by observation is explored on the spot) - x {'1', '', '0', 'true', 'py312'}; every bundle of
+     variables one tool defines together (tox, pytest, CI services, debug flags, notebook / virtualenv tools, python -O / -OO,
+     dev mode + default warning filters, hash seed, encodings / locale, bare account); thorough: every (variable, value) of the
+     35-variable menu alone and every package variable x every bundle} x history {probed as started; every variable defined /
+     removed AFTER the import and restored (pytest defines PYTEST_CURRENT_TEST while a test runs)} x every alias (module-level
+     bindings, (receiver class, alias) pairs x {subclass override, own replacement; thorough: all 4 variants}, obsolete keywords,
+     the toy family decorated in that interpreter) x shapes.  Oracle: the clauses of L0 / L1 / DP unchanged, and the package
+     offers the same aliases as in the base environment.  Out of the domain (counted): the package cannot be imported there.
 """
 from __future__ import annotations
 
@@ -100,7 +115,10 @@ TECHNIQUE = ('exhaustive enumeration of all discovered (receiver class, alias) p
              'alphabet (one-shot iterables, objects whose special methods raise or are recorded) through every renamed keyword, '
              'plus paired old/new calls on real receivers from a recipe table, plus every alias under every ambient configuration '
              'of the caller (stacks of warning filters x display channel x logging level) with a snapshot of the process-global '
-             'state before / after and a plain-Python model of the warning-filter resolution, on the real package')
+             'state before / after and a plain-Python model of the warning-filter resolution, plus every alias re-probed in fresh '
+             'interpreters started in every environment of a finite alphabet (variables the package looks at - found by a source '
+             'scan and by observing its os.environ look-ups - x values, bundles defined by tox / pytest / CI / python switches; '
+             'defined at start or after the import), on the real package')
 RULE = ('L0: toy declarations (5 forms) x receivers x shapes; L0H: every hierarchy over {inherit, ov-new, redecl, realias, '
         'plain-old} per class (chains of depth <= 3, thorough 4; diamonds, thorough with a class below) x {method, classmethod} '
         'x every access path on the bottom receiver x shapes x pools; L1X: every (class, alias) pair x receiver {override, '
@@ -116,7 +134,11 @@ RULE = ('L0: toy declarations (5 forms) x receivers x shapes; L0H: every hierarc
         'alias, obsolete keyword and alias declaration (thorough: every (class, alias) pair) x {2 bases x (no filter + 72 single '
         'filters); 2 bases x 7 stacks x 4 channels x 2 logging levels; 576 ordered stacks of two (toy; thorough: functions and '
         'keywords too; toy thorough: 216 stacks of three); 2 deep-state configurations}, the other pairs x 5 configurations in '
-        'the quick tier.  A case is non-trivial when the sentinel / both paired calls were '
+        'the quick tier; DPB: every decorated callable x renamed keyword x {old first, new first} x positional count x 2 pools; '
+        'PENV: one fresh interpreter per environment {base; package variable x 5 values; 10 bundles; thorough: every (variable, '
+        'value) of the menu, package variable x bundle} x {as started; each variable (re)defined or removed after the import} x '
+        'every alias (functions, (class, alias) pairs x {sub1, own} (thorough: 4 variants), obsolete keywords, toy family) x '
+        'shapes (1; thorough 3).  A case is non-trivial when the sentinel / both paired calls were '
         'actually executed and compared (L1 own: only when the receiver class resolves the replacement to another '
         'function than the class declaring the alias; TS: only when an independent candidate exists; DP: only with at '
         'least one obsolete keyword; L2: both sides executed - pairs where both raise the same exception type are '
@@ -146,6 +168,13 @@ ASSUMPTIONS = [
     'part of the compared state (it is emptied before each call so that every call is a first call); module= / lineno= filters '
     'are not in the alphabet (nothing is demanded about the stack level of the warning); "the warning" is read as an ordinary '
     'Python DeprecationWarning, i.e. subject to the caller\'s filters like any other',
+    'PENV: the environment alphabet is finite: variables named in (or observed being read by) the package, and a menu of 35 '
+    'variables that test runners, CI services, tools and the interpreter define, with 1-3 values each; bundles are single '
+    'realistic combinations; arbitrary combinations and variables read by third-party libraries only are not explored; '
+    'PYTHONDONTWRITEBYTECODE stays set (nothing is written into the tree under test); the interpreter\'s own switches are only '
+    'explored at start; an environment in which the package cannot be imported is out of the domain (counted)',
+    'DPB: "the old keyword behaves exactly like the new one" is read as: giving both is giving one keyword twice, which Python '
+    'refuses; only the refusal is demanded (any exception, function not reached), not the exception type or a warning',
     'static-method aliases cannot see a receiver: for them only "keeps working" (reaches the declared or the resolved '
     'replacement) is demanded; there is none in the package today',
 ]
@@ -1669,6 +1698,61 @@ def dp_probe(entry, subset, npos, extra, order, pool):
     return bad, outcome_of(bad, sink, exc) + (len(subset),), True
 
 
+def dp_both_cases(tier):
+    """(entry, obsolete keyword that has a new name, which one is written first, positional count, pool)"""
+    for entry in dpv_entries():
+        obsolete = {}
+        for _, d in entry['levels']:
+            obsolete.update(d)
+        for old in sorted(k for k, v in obsolete.items() if v):
+            for first in ('old', 'new'):
+                for npos in ((0, 1) if tier == 'quick' else (0, 1, 2)):
+                    for pool in POOLS:
+                        yield entry, old, first, npos, pool
+
+
+def dp_both_probe(entry, old, first, npos, pool):
+    """The old and the new keyword in ONE call: f(old=a, new=b) / f(new=b, old=a), a is not b.
+    Reference (plain Python): the old keyword IS the new one (plus a warning), so this is f(new=a, new=b) - a keyword given
+    twice, which Python refuses before the function runs (control: the same two values under the new name, handed over as two
+    mappings, raise TypeError).  Demanded: the call is refused (any exception) and the function is not reached with one of the
+    two explicitly given values silently thrown away.  -> (bad, outcome) | None"""
+    obsolete = {}
+    for _, d in entry['levels']:
+        obsolete.update(d)
+    new = obsolete[old]
+    core = core_function(entry['func'])
+    if core is None or not new:
+        return None
+    vals = pool_values(pool)
+    pos = tuple(vals[i % len(vals)] for i in range(npos))
+    a, b = Tok('given-under-the-old-name'), Tok('given-under-the-new-name')
+    kw = {old: a, new: b} if first == 'old' else {new: b, old: a}
+    try:
+        (lambda *p, **k: None)(*pos, **{new: a}, **{new: b})
+        return 'python-accepts-a-keyword-twice'
+    except TypeError:
+        pass
+    sink = Sink(Tok('ret'), False)
+    exc = None
+    with CodeSwap(core, sink):
+        with Observe() as obs:
+            try:
+                entry['func'](*pos, **kw)
+            except BaseException as e:  # noqa
+                exc = e
+    bad = []
+    if exc is None or sink.calls:
+        got = sink.calls[0][1].get(new, '<nothing>') if sink.calls else '<not called>'
+        kept = 'the value given under the old name' if got is a else 'the value given under the new name' if got is b else _sr(got)
+        bad.append(('old-and-new-keyword-together-accepted-silently',
+                    f'{entry["label"]}({", ".join(k + "=..." for k in kw)}) is accepted: the function runs with {new} = {kept}, the other '
+                    f'explicitly given value is thrown away (the keyword written last wins: the result depends on the order of the '
+                    f'keywords); the same two values given under the new name are refused by Python (TypeError: multiple values for '
+                    f'keyword argument {new!r})', 'refused, as a keyword given twice', f'accepted, {new} = {kept}'))
+    return bad, ('refused' if not bad else 'accepted', type(exc).__name__ if exc is not None else None, len(obs.dep_warnings()))
+
+
 def dp_sanity(rec):
     """Each obsolete keyword must map to a parameter the function accepts, and to the one its name denotes."""
     import inspect
@@ -2972,7 +3056,7 @@ def penv_consume(rec, task, res, start, phases_spec, envkey, my_units):
             rec.case(('PENV', plabel, tuple(map(str, u)), si), (plabel, u, si, outcome), outcome=('PENV', timing.split('-then')[0], kind, outcome))
             if bad:
                 _viol(rec, f'PENV environment {plabel}', f'process-environment:{timing.split("-then")[0]}:{key_env}', lab,
-                      [tuple(b) for b in bad], dict(part='PENV', start=start, late=late, unit=u, shape=shape, envkey=envkey))
+                      [tuple(b) for b in bad], dict(part='PENV', start=start, late=late, unit=u, shape=shape, envkey=envkey, pool=POOLS[_SEED % 2]))
     rec.count('penv_probes', n)
     return res
 
@@ -4184,6 +4268,19 @@ def run_task(task):
                     _viol(rec, 'DP keyword renaming', f'keyword:{entry["label"]}' if any(b[0] == 'arguments-not-passed-through' for b in bad) else 'keyword',
                           f'{entry["label"]}(*{npos} positional, {list(subset)} + {extra})', bad,
                           dict(part='DP', label=entry['label'], subset=list(subset), npos=npos, extra=extra, order=order, pool=pool))
+        for entry, old, first, npos, pool in dp_both_cases(tier):
+            r = dp_both_probe(entry, old, first, npos, pool)
+            if r is None:
+                rec.count('dp_core_not_swappable')
+                continue
+            if isinstance(r, str):
+                rec.count('dp_both_' + r.replace('-', '_'))
+                continue
+            rec.case(('DPB', entry['label'], old, first, npos, pool), (entry['label'], old, first, npos, pool, r[1]), outcome=('DPB',) + r[1])
+            rec.count('dp_old_and_new_keyword_together_probes')
+            _viol(rec, 'DP old and new keyword in one call', 'keyword',
+                  f'{entry["label"]}({old}=..., {dict(kv for _, d in entry["levels"] for kv in d.items())[old]}=...)', r[0],
+                  dict(part='DPB', label=entry['label'], old=old, first=first, npos=npos, pool=pool))
         rec.sample(dict(part='DP', callables=[e['label'] for e in D['dp']][:4], n=len(D['dp'])))
     elif part == 'DPV':
         dpv_run(rec, tier)
@@ -4338,6 +4435,12 @@ def replay(case):
         if r and r != 'collision':
             _viol(rec, 'DP keyword renaming', f'keyword:{entry["label"]}' if any(b[0] == 'arguments-not-passed-through' for b in r[0]) else 'keyword',
                   f'{entry["label"]}', r[0], case)
+    elif part == 'DPB':
+        entry = next(e for e in dpv_entries() if e['label'] == case['label'])
+        r = dp_both_probe(entry, case['old'], case['first'], case['npos'], case['pool'])
+        if r and not isinstance(r, str):
+            _viol(rec, 'DP old and new keyword in one call', 'keyword',
+                  f'{entry["label"]}({case["old"]}=...)', r[0], case)
     elif part == 'RK0':
         r = rk0_probe(case['form'], case['rkind'], case['position'], case['flavour'], case['path'], shp(case['shape']), case['pool'])
         if r:
